@@ -14,6 +14,7 @@ import (
 	"encoding/json"
 	"flag"
 	"fmt"
+	"math"
 	"os"
 	"os/exec"
 	"path/filepath"
@@ -188,6 +189,10 @@ func prepare(race bool) *build {
 	}
 	b.worker = filepath.Join(scratch, "worker.test")
 	args := []string{"test", "-c", "-tags", "verif", "-overlay", res.Overlay, "-o", b.worker}
+	if gf := os.Getenv("VSIM_GCFLAGS"); gf != "" {
+		// debugging aid (e.g. all=-d=checkptr)
+		args = append(args, "-gcflags", gf)
+	}
 	if race {
 		args = append(args, "-race")
 	}
@@ -260,7 +265,7 @@ func (b *build) runWorker(s *spec, timeout time.Duration, extraEnv ...string) (*
 	}
 	data, err := os.ReadFile(s.Out)
 	if err != nil {
-		return nil, &workerDied{err: fmt.Sprintf("%v", werr), output: headTail(buf.String(), 6000, 6000)}
+		return nil, &workerDied{err: fmt.Sprintf("%v", werr), output: headTail(dropNoise(buf.String()), 40000, 20000)}
 	}
 	var r result
 	if err := json.Unmarshal(data, &r); err != nil {
@@ -271,6 +276,23 @@ func (b *build) runWorker(s *spec, timeout time.Duration, extraEnv ...string) (*
 	}
 	r.Meta = map[string]string{"output": tail(buf.String(), 20000)}
 	return &r, nil
+}
+
+// dropNoise removes pike's own log lines and the runtime's span dumps from a dead worker's
+// output so that the fatal message and the stacks survive the clipping.
+func dropNoise(out string) string {
+	var b strings.Builder
+	for _, l := range strings.Split(out, "\n") {
+		if strings.HasPrefix(l, `{"level":`) {
+			continue
+		}
+		if strings.HasPrefix(l, "0x") && (strings.HasSuffix(l, " unmarked") || strings.HasSuffix(l, " marked") || strings.Contains(l, " alloc ") || strings.Contains(l, " free ")) {
+			continue
+		}
+		b.WriteString(l)
+		b.WriteByte('\n')
+	}
+	return b.String()
 }
 
 // workerDied: the worker process ended without writing its result (fatal error of the Go
@@ -418,6 +440,7 @@ type agg struct {
 	knownHits        map[string]int
 	raceRuns         int
 	crashes          int
+	transientDeaths  []string
 }
 
 func newAgg() *agg {
@@ -507,6 +530,21 @@ func runCheck(c *checkCfg) int {
 							mu.Unlock()
 							continue
 						}
+						// no run of the chunk ends a fresh process on its own: execute the chunk again
+						// (twice at most). A death that does not come back is not attributable to any
+						// run - it is counted, reported in the evidence and on stderr, and the chunk's
+						// second execution is what enters the result, so that no run is skipped.
+						for try := 0; try < 2 && err != nil; try++ {
+							remain := math.Max(time.Until(deadline).Seconds(), 60)
+							r, err = b.runWorker(&spec{Profile: c.profile, Tier: c.tier, Seed: c.seed, From: from, Count: cnt, MaxWallS: remain, Known: knownSigs}, time.Duration(remain+180)*time.Second)
+						}
+						if err == nil {
+							mu.Lock()
+							a.transientDeaths = append(a.transientDeaths, fmt.Sprintf("runs %d..%d: %s", from, from+cnt-1, wd.reason()))
+							mu.Unlock()
+							fmt.Fprintf(os.Stderr, "vsim: note: a worker process died (%s) while executing runs %d..%d; no single run reproduces it and the chunk completed when executed again\n", wd.reason(), from, from+cnt-1)
+							saveTrouble(c, "transient", wd.Error())
+						}
 					}
 					mu.Lock()
 					if err != nil {
@@ -547,10 +585,7 @@ func runCheck(c *checkCfg) int {
 	}
 	if len(a.workersFailed) > 0 {
 		// keep the whole story for a post-mortem
-		dir := filepath.Join(verifRoot, "replays", "_worker_trouble")
-		_ = os.MkdirAll(dir, 0o755)
-		path := filepath.Join(dir, fmt.Sprintf("%s-%s-%d.log", c.prop, c.tier, time.Now().Unix()))
-		_ = os.WriteFile(path, []byte(strings.Join(a.workersFailed, "\n\n=====\n\n")), 0o644)
+		path := saveTrouble(c, "trouble", strings.Join(a.workersFailed, "\n\n=====\n\n"))
 		fmt.Fprintf(os.Stderr, "vsim: worker trouble (exit 2, not a violation; full output in %s): %s\n", path, tail(a.workersFailed[0], 3000))
 		return 2
 	}
@@ -612,6 +647,14 @@ func runCheck(c *checkCfg) int {
 
 // isolateCrash re-runs the runs of a chunk whose worker died one per process until the
 // run that takes the process down is found; that run becomes a violation (kind process-crash).
+func saveTrouble(c *checkCfg, what, text string) string {
+	dir := filepath.Join(verifRoot, "replays", "_worker_trouble")
+	_ = os.MkdirAll(dir, 0o755)
+	path := filepath.Join(dir, fmt.Sprintf("%s-%s-%s-%d.log", c.prop, c.tier, what, time.Now().UnixNano()))
+	_ = os.WriteFile(path, []byte(text), 0o644)
+	return path
+}
+
 func isolateCrash(b *build, c *checkCfg, from, cnt int, wd *workerDied) *runViolation {
 	for i := 0; i < cnt; i++ {
 		idx := from + i
@@ -1008,6 +1051,10 @@ func writeEvidence(c *checkCfg, b *build, a *agg, nviol int, wall, buildS float6
 		"stub_components":     stubComponents,
 		"warnings":            warnings,
 		"exhaustive":          false,
+	}
+	if len(a.transientDeaths) > 0 {
+		cov["worker_deaths_not_reproduced"] = map[string]interface{}{"count": len(a.transientDeaths), "what": a.transientDeaths,
+			"meaning": "a worker process ended with a fatal error of the Go runtime; every run of its chunk was then executed alone in a fresh process and the whole chunk once more, and none of them ended a process again: the death is not attributable to a run (see DESIGN.md 16.4, go1.26 synctest bubbles that end with blocked goroutines)"}
 	}
 	if c.prop == "C20" {
 		cov["race_build_runs"] = a.raceRuns
